@@ -443,4 +443,210 @@ theorem rinv_reset {txs : List Tx} (hs : Supported txs) {retry : List Bool} {ini
       simp only [hji, if_false] at hk ⊢
       exact h.startCover j hj hrj hw0 a hwa hk
 
+theorem hasKey_append (l : List (Nat × Nat)) (b v a : Nat) :
+    hasKey (l ++ [(b, v)]) a = (hasKey l a || decide (b = a)) := by
+  simp [hasKey, List.any_append]
+
+theorem enabledTx_uncommitted {txs : List Tx} {s : Sim} {i : Nat}
+    (h : enabledTx txs (build txs) s i = true) : (stOf s i).committed = false := by
+  rw [enabledTx_eq] at h
+  cases hc : (stOf s i).committed
+  · rfl
+  · simp [hc] at h
+
+theorem fireEv_act_shape (txs : List Tx) (r : RSim) (i : Nat) :
+    ∃ st' : RSt, fireEv txs (build txs) r (.act i) = { sim := fire txs (build txs) r.sim i, rs := r.rs.set i st' } ∧
+      (st'.snapped = (rsOf r i).snapped ∧ st'.wsnap = (rsOf r i).wsnap ∧
+      (st'.start = (rsOf r i).start ∨
+        ∃ step d, (txAt txs i).prog[(stOf r.sim i).pc]? = some step ∧ access (lkAt txs i) step.acct = .rw d ∧
+          hasKey (rsOf r i).start step.acct = false ∧
+          st'.start = (rsOf r i).start ++ [(step.acct, r.sim.real.getD step.acct 0)]) ∧
+      (∀ step d, (txAt txs i).prog[(stOf r.sim i).pc]? = some step → access (lkAt txs i) step.acct = .rw d →
+          hasKey st'.start step.acct = true)) := by
+  simp only [fireEv]
+  cases hp : (List.getD txs i ⟨[], []⟩).prog[(r.sim.sts.getD i {}).pc]? with
+  | none =>
+    have hp' : (txAt txs i).prog[(stOf r.sim i).pc]? = none := hp
+    exact ⟨_, rfl, rfl, rfl, Or.inl rfl, by intro step d h; rw [hp'] at h; cases h⟩
+  | some step =>
+    have hp' : (txAt txs i).prog[(stOf r.sim i).pc]? = some step := hp
+    simp only
+    cases hacc : access (List.getD (build txs) i ⟨0, []⟩) step.acct with
+    | rw d =>
+      have hacc' : access (lkAt txs i) step.acct = .rw d := hacc
+      simp only
+      by_cases hk : hasKey (rsOf r i).start step.acct = true
+      · rw [if_pos hk]
+        refine ⟨_, rfl, rfl, rfl, Or.inl rfl, ?_⟩
+        intro step2 d2 h2 _
+        rw [hp'] at h2; injection h2 with h2; subst h2; exact hk
+      · have hk' : hasKey (rsOf r i).start step.acct = false := by simpa using hk
+        rw [if_neg hk]
+        refine ⟨_, rfl, rfl, rfl, Or.inr ⟨step, d, hp', hacc', hk', rfl⟩, ?_⟩
+        intro step2 d2 h2 _
+        rw [hp'] at h2; injection h2 with h2; subst h2
+        rw [hasKey_append]; simp
+    | worldW | roBase | nil | ro d =>
+      have hacc' : access (lkAt txs i) step.acct = _ := hacc
+      simp only
+      refine ⟨_, rfl, rfl, rfl, Or.inl rfl, ?_⟩
+      intro step2 d2 h2 h3
+      rw [hp'] at h2; injection h2 with h2; subst h2
+      rw [hacc'] at h3; cases h3
+
+theorem rinv_act {txs : List Tx} (hs : Supported txs) {retry : List Bool} {init : List Nat} {r : RSim}
+    (h : RInv txs retry init r) {i : Nat}
+    (hen : enabledEv true txs retry (build txs) r (.act i) = true) :
+    RInv txs retry init (fireEv txs (build txs) r (.act i)) := by
+  simp only [enabledEv, Bool.and_eq_true, decide_eq_true_eq, Bool.or_eq_true, Bool.not_eq_true'] at hen
+  obtain ⟨⟨hi, hena⟩, hretry⟩ := hen
+  have hnc := enabledTx_uncommitted hena
+  have hlen : i < r.rs.length := by rw [h.lenRS]; exact hi
+  have hlenS : i < r.sim.sts.length := by rw [h.inv.lenS]; exact hi
+  have hinv' := inv_fire hs h.inv hi hena
+  have hother := fun j (hji : j ≠ i) => stOf_fire_other txs (build txs) r.sim hji
+  have hmono := fun j => fire_mono txs (build txs) r.sim i j
+  have hpcI := pc_fire_self txs (build txs) r.sim hlenS
+  obtain ⟨st', hshape, hfacts⟩ := fireEv_act_shape txs r i
+  rw [hshape]
+  obtain ⟨hsnp, hwsn, hstart, hkey⟩ := hfacts
+  have hq := fun j => rsOf_set r (fire txs (build txs) r.sim i) i st' hlen j
+  have hsub : ∀ p, p ∈ (rsOf r i).start → p ∈ st'.start := by
+    intro p hp
+    rcases hstart with h1 | ⟨_, _, _, _, _, h1⟩
+    · rw [h1]; exact hp
+    · rw [h1]; exact List.mem_append_left _ hp
+  refine ⟨hinv', by simp [h.lenRS], ?_, ?_, ?_, ?_, ?_⟩
+  · intro j hj hrj hsj
+    rw [hq] at hsj
+    by_cases hji : j = i
+    · subst hji
+      simp only [if_true] at hsj
+      rw [hsnp] at hsj
+      rcases hretry with h1 | ⟨h1, _⟩
+      · rw [hrj] at h1; cases h1
+      · rw [hsj] at h1; cases h1
+    · simp only [hji, if_false] at hsj
+      rw [hother j hji]; exact h.notSnapped j hj hrj hsj
+  · intro j hj σ hσ
+    rw [hq] at hσ
+    have hσ' : (rsOf r j).wsnap = some σ := by
+      by_cases hji : j = i
+      · subst hji; simp only [if_true] at hσ; rw [← hwsn]; exact hσ
+      · simpa [hji] using hσ
+    obtain ⟨a1, a2, a3⟩ := h.wsnapOk j hj σ hσ'
+    exact ⟨a1, a2, fun k hk => hmono k (a3 k hk)⟩
+  · intro j hj hsj hw
+    rw [hq] at hsj ⊢
+    by_cases hji : j = i
+    · subst hji
+      simp only [if_true] at hsj ⊢
+      rw [hsnp] at hsj
+      rw [hwsn]; exact h.wsnapSome j hj hsj hw
+    · simp only [hji, if_false] at hsj ⊢
+      exact h.wsnapSome j hj hsj hw
+  · intro j hj hrj p hp
+    rw [hq] at hp
+    by_cases hji : j = i
+    · subst hji
+      simp only [if_true] at hp
+      have hold : p ∈ (rsOf r j).start → _ := fun hp' => by
+        obtain ⟨a1, a2, a3⟩ := h.startOk j hj hrj p hp'
+        exact (⟨a1, a2, smallerDone_mono hmono a3⟩ :
+          writer txs j p.1 = true ∧ p.2 = (seqState txs init j).getD p.1 0 ∧
+            smallerDone txs (fire txs (build txs) r.sim j) j p.1)
+      rcases hstart with h1 | ⟨step, d, hstp, hacc, hnk, h1⟩
+      · rw [h1] at hp; exact hold hp
+      · rw [h1, List.mem_append] at hp
+        rcases hp with hp | hp
+        · exact hold hp
+        · simp only [List.mem_singleton] at hp
+          subst hp
+          have hwr := (writer_of_access hs hj).1 d hacc
+          have hw0 : (lkAt txs j).world = 0 := by
+            rcases access_writer hs hj hwr with ⟨h1, _⟩ | ⟨_, h0⟩
+            · rw [hacc] at h1; cases h1
+            · exact h0
+          have hdd := access_entry hj (Or.inl hacc)
+          have hdep : depOK r.sim (dep txs j step.acct) = true := by
+            have hen2 := hena
+            rw [enabledTx_eq] at hen2
+            simp only [hnc, Bool.false_eq_true, if_false, hstp, hacc] at hen2
+            rw [← hdd]; exact hen2
+          have hsm : smallerDone txs r.sim j step.acct := smaller_writers h.inv hj _ hdep
+          refine ⟨hwr, ?_, smallerDone_mono hmono hsm⟩
+          exact own_start h.inv hj hnc hwr hsm (h.startCover j hj hrj hw0 _ hwr hnk)
+    · simp only [hji, if_false] at hp
+      obtain ⟨a1, a2, a3⟩ := h.startOk j hj hrj p hp
+      exact ⟨a1, a2, smallerDone_mono hmono a3⟩
+  · intro j hj hrj hw0 a hwa hk
+    rw [hq] at hk
+    by_cases hji : j = i
+    · subst hji
+      simp only [if_true] at hk
+      have hkold : hasKey (rsOf r j).start a = false := by
+        cases hko : hasKey (rsOf r j).start a
+        · rfl
+        · obtain ⟨p, hp, hpa⟩ := hasKey_true hko
+          have : hasKey st'.start a = true := by
+            unfold hasKey; rw [List.any_eq_true]; exact ⟨p, hsub p hp, by simp [hpa]⟩
+          rw [hk] at this; cases this
+      have hold := h.startCover j hj hrj hw0 a hwa hkold
+      rw [hpcI]
+      cases hstp : (txAt txs j).prog[(stOf r.sim j).pc]? with
+      | none => simpa using hold
+      | some step =>
+        simp only [Option.isSome_some, if_true]
+        have eP : P txs init j ((stOf r.sim j).pc + 1) =
+            stepOn j (declaredBy (lkAt txs j)) step (P txs init j (stOf r.sim j).pc).1 (P txs init j (stOf r.sim j).pc).2 := by
+          unfold P; exact partialRun_succ _ _ _ _ _ _ hstp
+        have hne : step.acct ≠ a := by
+          intro heq
+          rcases access_writer hs hj hwa with ⟨_, h2⟩ | ⟨hacc, _⟩
+          · omega
+          · rw [← heq] at hacc
+            have := hkey step _ hstp hacc
+            rw [heq, hk] at this; cases this
+        rw [eP, stepOn_getD_other _ _ _ _ _ a (Or.inl hne)]
+        exact hold
+    · simp only [hji, if_false] at hk
+      rw [hother j hji]
+      exact h.startCover j hj hrj hw0 a hwa hk
+
+theorem rsOf_rInit (nacc : Nat) (txs : List Tx) (i : Nat) : rsOf (rInit nacc txs) i = {} := by
+  unfold rsOf rInit
+  simp only [List.getD_eq_getElem?_getD, List.getElem?_map]
+  cases txs[i]? <;> rfl
+
+theorem rinv_init {txs : List Tx} (hs : Supported txs) (retry : List Bool) (nacc : Nat) :
+    RInv txs retry (initBal nacc) (rInit nacc txs) := by
+  have hst : ∀ i, stOf (rInit nacc txs).sim i = {} := stOf_simInit nacc txs
+  have hrs := rsOf_rInit nacc txs
+  refine ⟨inv_init hs nacc, by simp [rInit], ?_, ?_, ?_, ?_, ?_⟩
+  · intro i _ _ _; rw [hst]
+  · intro i _ σ hσ; rw [hrs] at hσ; cases hσ
+  · intro i _ hsn; rw [hrs] at hsn; cases hsn
+  · intro i _ _ p hp; rw [hrs] at hp; cases hp
+  · intro i _ _ _ a _ _; rw [hst]; simp [P, partialRun_zero]
+
+/-- the retry invariant holds in every state reached by a schedule of enabled events -/
+theorem rinv_run {txs : List Tx} (hs : Supported txs) {retry : List Bool} {init : List Nat} :
+    ∀ (evs : List Ev) (r r' : RSim), RInv txs retry init r →
+      runEv true txs retry (build txs) evs r = some r' → RInv txs retry init r' := by
+  intro evs
+  induction evs with
+  | nil => intro r r' h hr; simp [runEv] at hr; subst hr; exact h
+  | cons e rest ih =>
+    intro r r' h hr
+    simp only [runEv] at hr
+    split at hr
+    · rename_i hen
+      have h' : RInv txs retry init (fireEv txs (build txs) r e) := by
+        cases e with
+        | snap i => exact rinv_snap hs h hen
+        | act i => exact rinv_act hs h hen
+        | reset i => exact rinv_reset hs h hen
+      exact ih _ _ h' hr
+    · cases hr
+
 end Goloop.C09.Proofs
